@@ -23,6 +23,12 @@ CHECKS={
  "C11":dict(tech="deterministic simulation: strict independent decoder on every byte the SUT emits under PRNG fragmentation; socket tap vs upload counter",
    text="Every byte a real session writes to a scripted peer (handshake, core, fast, extension handshake, ut_metadata, PEX) is parsed by a from-scratch strict decoder under seeded fragmentation and read chunking in all transfer and seeding runs; the upload counter is compared after quiescence with piece payload bytes counted by a tap on the simulated sockets.",
    ref="DESIGN.md 5 C11", note="Known finding F06 (upload counter undercount at connection close) is listed in known_findings.json and reported as KNOWN-FINDING. rain->rain round trip through rain's own reader is not yet exercised. "+LEVEL_NOTE_COMMON),
+ "C04":dict(tech="deterministic simulation: seeded command sequences and external file mutations against a real session with a reference model of allowed effects; process-level crash/hang detection",
+   text="One torrent of a real session is driven by generated command histories with zero-to-minutes gaps (commands land during Allocating/Verifying/Stopping and while piece writes or stop announces are in flight because disk and tracker latencies are stretched), files are corrupted/truncated/deleted at Stopped points, and a re-dialling honest seed is reachable. Checked: no panic or hang (any crash of the process is a violation), every API call returns, Stop reaches Stopped within the tracker stop timeout (+ simulated disk latency), Start takes effect, Verify ends Stopped with the bitfield equal to the disk, status samples are truthful (Seeding / Stopped / completed bytes), final Start converges to correct files.",
+   ref="DESIGN.md 5 C04", note="Silent same-size content corruption cannot be detected without re-hashing: such pieces are excluded from truthfulness until a verification (weakest sound reading). "+LEVEL_NOTE_COMMON),
+ "C05":dict(cat="fault_enumeration", tech="deterministic simulation with crash injection: durable-image snapshots of the simulated disk + resume DB copies at write gates, restart of a fresh session on the image, claims vs surviving bytes",
+   text="The real filestorage code runs on a simulated disk with a durability model (O_SYNC writes durable at return, others volatile, torn in-flight sectors). At seed-chosen gates of piece writes (begin/mid/end) and at command points the world takes the durable image and a copy of the bbolt file, optionally deletes files from the image, boots a second session on them and checks through an observer peer and Stats that no piece is counted as held unless it is complete and correct in the surviving files, that the DB opens, and that the download then completes.",
+   ref="DESIGN.md 5 C05", note="Crashes inside a bbolt commit are not explored (commit is atomic w.r.t. simulated scheduling; bbolt's own atomicity is trusted). File-size metadata is treated as durable. "+LEVEL_NOTE_COMMON),
 }
 NA_REASON="check not built yet in this session (simulation scenario planned in DESIGN.md section 5; will be claimed once it runs clean on the unchanged tree)"
 m={"version":1,"setup_cmd":"./setup.sh",
